@@ -1092,6 +1092,7 @@ func (ex *Exec) evalCall(call *ast.CallExpr, st *State) []Value {
 			}
 		}
 	}
+	ex.checkCallSite(call, st)
 	var fn *types.Func
 	var recv *Value
 	var recvExpr ast.Expr
